@@ -567,6 +567,62 @@ func c15RealFiles(run *hx.Run, o *hx.Oracle, dir string) {
 			run.See("real_file", enc+": "+err.Error())
 		}
 	}
+	// 3b. a valid database without any table yet: SQLite leaves schema format and text encoding 0 in the header
+	for _, variant := range []string{"user-version-only", "vacuumed-empty", "table-dropped"} {
+		p := filepath.Join(dir, "empty-"+variant+".sqlite")
+		var stmts []string
+		switch variant {
+		case "user-version-only":
+			stmts = []string{"PRAGMA user_version=7"}
+		case "vacuumed-empty":
+			stmts = []string{"PRAGMA application_id=99", "VACUUM"}
+		default:
+			stmts = []string{"CREATE TABLE gone(a)", "DROP TABLE gone", "VACUUM"}
+		}
+		if err := o.Exec(p, stmts...); err != nil {
+			run.Inconclusive("empty database: " + err.Error())
+			continue
+		}
+		hb, _ := os.ReadFile(p)
+		if len(hb) < 100 {
+			run.Count("empty_database_variant_without_file", 1)
+			continue
+		}
+		run.See("empty_database_header", fmt.Sprintf("%s: schema format %d, text encoding %d", variant, binary.BigEndian.Uint32(hb[44:48]), binary.BigEndian.Uint32(hb[56:60])))
+		run.Eval(1)
+		run.DistinctN(1)
+		key := "C15/real/empty-database/" + variant
+		db, err := sqlittle.Open(p)
+		if err != nil {
+			run.Violation(key+"/wrongly-refused", fmt.Sprintf("a valid database with no tables (%v) is refused at open: %v; SQLite reads it (0 tables)", stmts, err), nil)
+			continue
+		}
+		low, lerr := sdb.OpenFile(p)
+		if lerr == nil {
+			if err := low.RLock(); err == nil {
+				ts, terr := low.Tables()
+				low.RUnlock()
+				var user []string
+				for _, t := range ts {
+					if !strings.HasPrefix(t, "sqlite_") {
+						user = append(user, t)
+					}
+				}
+				if terr != nil || len(user) != 0 {
+					run.Violation(key+"/tables", fmt.Sprintf("Tables() on an empty database: %v, %v", ts, terr), nil)
+				}
+			}
+			low.Close()
+		}
+		// the first table arrives while the handle is open
+		if err := o.Exec(p, "CREATE TABLE late(a, b)", "INSERT INTO late VALUES(1,'x'),(2,'y')"); err == nil {
+			n := 0
+			if err := db.Select("late", func(sqlittle.Row) { n++ }, "a", "b"); err != nil || n != 2 {
+				run.Violation(key+"/first-table-later", fmt.Sprintf("a table created after the handle was opened on the empty database: Select gives %d rows, %v", n, err), nil)
+			}
+		}
+		db.Close()
+	}
 	// 4. schema formats 1..4 (mkformat)
 	mk := filepath.Join(hx.VerifDir(), "bin", "mkformat")
 	type fcase struct {
@@ -580,6 +636,10 @@ func c15RealFiles(run *hx.Run, o *hx.Oracle, dir string) {
 		{"format3", "1", []string{"CREATE TABLE t(a,b)", "INSERT INTO t VALUES(1,'x'),(2,'y')", "ALTER TABLE t ADD COLUMN c DEFAULT 5"}},
 		{"format4-desc", "1", []string{"CREATE TABLE t(a,b)", "INSERT INTO t VALUES(1,'x'),(2,'y')", "CREATE INDEX i ON t(a DESC)"}},
 		{"format4", "0", []string{"CREATE TABLE t(a,b)", "INSERT INTO t VALUES(1,'x'),(2,'y'),(0,'z')"}},
+		// a DESC index made while the file was in a legacy format: formats 1-3 ignore DESC (the entries are stored ascending)
+		{"format2-desc-index", "1", []string{"CREATE TABLE t(a,b)", "INSERT INTO t VALUES(1,'x'),(2,'y'),(3,'z'),(4,'w'),(5,'v')", "CREATE INDEX i ON t(a DESC)", "ALTER TABLE t ADD COLUMN c"}},
+		{"format3-desc-index", "1", []string{"CREATE TABLE t(a,b)", "INSERT INTO t VALUES(1,'x'),(2,'y'),(3,'z'),(4,'w'),(5,'v')", "CREATE INDEX i ON t(a DESC, b)", "ALTER TABLE t ADD COLUMN c DEFAULT 7"}},
+		{"format4-desc-index", "0", []string{"CREATE TABLE t(a,b)", "INSERT INTO t VALUES(1,'x'),(2,'y'),(3,'z'),(4,'w'),(5,'v')", "CREATE INDEX i ON t(a DESC, b)"}},
 	}
 	for _, c := range cases {
 		p := filepath.Join(dir, c.name+".sqlite")
@@ -614,6 +674,37 @@ func c15RealFiles(run *hx.Run, o *hx.Oracle, dir string) {
 				run.Violation(key+"/rows", fmt.Sprintf("schema format %d accepted but %d rows read, SQLite has %v", format, n, want[0][0]), nil)
 			} else {
 				run.See("real_file", fmt.Sprintf("format %d accepted, rows equal", format))
+			}
+			// an accepted file must also be SEARCHED the way it is stored: every stored key is found through index i
+			if ix, _ := o.Query(p, "SELECT count(*) FROM sqlite_master WHERE name='i'"); len(ix) == 1 && ix[0][0] == interface{}(int64(1)) {
+				if db, err := sqlittle.Open(p); err == nil {
+					keys, _ := o.Query(p, "SELECT DISTINCT a FROM t")
+					for _, k := range keys {
+						cnt, _ := o.Query(p, "SELECT count(*) FROM t WHERE a IS ?1", k[0])
+						got := 0
+						err := db.IndexedSelectEq("t", "i", sqlittle.Key{k[0]}, func(sqlittle.Row) { got++ }, "a")
+						run.Eval(1)
+						if err != nil || int64(got) != cnt[0][0].(int64) {
+							run.Violation(key+"/index-search", fmt.Sprintf("%s (schema format %d, index declared DESC): IndexedSelectEq(t, i, %s) finds %d rows (err=%v), SQLite finds %v", c.name, format, hx.ValueString(k[0]), got, err, cnt[0][0]), nil)
+							break
+						}
+					}
+					var ord []hx.Value
+					if err := db.IndexedSelect("t", "i", func(r sqlittle.Row) { ord = append(ord, r[0]) }, "a"); err == nil {
+						wantOrd, _ := o.Query(p, "SELECT a FROM t INDEXED BY i WHERE a IS NOT NULL ORDER BY a "+map[bool]string{true: "DESC", false: "ASC"}[format == 4])
+						ok := len(wantOrd) == len(ord)
+						for i := range ord {
+							if ok && !hx.ValueEqualStrict(ord[i], wantOrd[i][0]) {
+								ok = false
+							}
+						}
+						if !ok {
+							run.Violation(key+"/index-order", fmt.Sprintf("%s (schema format %d): IndexedSelect(t, i) order %v, the stored order is %v", c.name, format, ord, wantOrd), nil)
+						}
+					}
+					db.Close()
+					run.See("legacy_format_index_searched", fmt.Sprintf("format %d", format))
+				}
 			}
 		}
 	}
